@@ -821,6 +821,27 @@ func resolveMathType(module *Module, fn *Function, expr ExprMath) (TypeResolutio
 		}
 		return argType, nil
 
+	case MathTranspose, MathDeterminant:
+		// transpose(matCxR) is matRxC, determinant(m) is the matrix' scalar type
+		var inner TypeInner
+		if argType.Handle != nil {
+			if int(*argType.Handle) >= len(module.Types) {
+				return TypeResolution{}, fmt.Errorf("type handle %d out of range", *argType.Handle)
+			}
+			inner = module.Types[*argType.Handle].Inner
+		} else {
+			inner = argType.Value
+		}
+		if mat, ok := inner.(MatrixType); ok {
+			if expr.Fun == MathDeterminant {
+				return TypeResolution{Value: mat.Scalar}, nil
+			}
+			if mat.Columns != mat.Rows {
+				return TypeResolution{Value: MatrixType{Columns: mat.Rows, Rows: mat.Columns, Scalar: mat.Scalar}}, nil
+			}
+		}
+		return argType, nil
+
 	case MathLength, MathDistance:
 		// Length and distance return f32
 		return TypeResolution{Value: ScalarType{Kind: ScalarFloat, Width: 4}}, nil
